@@ -37,10 +37,10 @@ import (
 const (
 	// timeproto.To computes Nanos as UnixNano()%1e9: negative for an instant before 1970 that is not a whole second
 	// (the signed time is then one second early), and garbage once UnixNano overflows (years < 1678 or > 2262).
-	judgeTimestampsOutsideUnixNano = false
+	judgeTimestampsOutsideUnixNano = true
 	// cmd/endorse.go scrtmMain replaces the FIRST ".fd" of the whole path, so the side file <name>_scrtm_ver.pb is
 	// not found when a directory of the path contains ".fd"; the SVN is then signed as 0.
-	judgeSideFileUnderFdDirectory = false
+	judgeSideFileUnderFdDirectory = true
 )
 
 type ext struct {
